@@ -131,6 +131,12 @@ CMP_CALLS = {"PartialEq::eq": "Eq", "PartialEq::ne": "Ne", "PartialOrd::lt": "Lt
              "PartialOrd::gt": "Gt", "PartialOrd::ge": "Ge"}
 
 
+def impl_cmp(callee):
+    import re as _re
+    m = _re.match(r"^<.* as std::cmp::(PartialEq|PartialOrd)(?:<.*>)?>::(eq|ne|lt|le|gt|ge)$", callee)
+    return {"eq": "Eq", "ne": "Ne", "lt": "Lt", "le": "Le", "gt": "Gt", "ge": "Ge"}[m.group(2)] if m else None
+
+
 def as_cmp(term, truth=True):
     """Normalise a boolean term to (op, a, b) holding when the guard has the given truth;
     handles Not, MIR comparison binops and PartialEq/PartialOrd calls.  None if not a comparison."""
@@ -145,6 +151,7 @@ def as_cmp(term, truth=True):
             return ("Not" + op, a, b)
     elif t[0] == "call" and short(t[1]) in CMP_CALLS and len(t[2]) == 2:
         op, a, b = CMP_CALLS[short(t[1])], strip(t[2][0]), strip(t[2][1])
+
     else:
         return None
     if not truth:
